@@ -108,6 +108,10 @@ func (p *pProfProtoDec) Decode() error {
 	if i < 0 {
 		i = length
 	} else {
+		if length-1 < i+1 {
+			// "app{": nothing after the brace, name[i+1:length-1] would be out of range
+			return fmt.Errorf("failed to compile labels")
+		}
 
 		promqllike := name[i+1 : length-1] // stripe {}
 		if len(promqllike) > 0 {
